@@ -37,6 +37,8 @@ type Thread struct {
 	started  bool
 	done     bool
 	sleeping bool
+	lib      bool   // started by a go statement of the code under test (not by the harness)
+	pend     uint64 // hash of the operation the thread is parked before / has just passed (kind, nil-ness of its location)
 	own      uint64 // progress-epoch increments made by this thread
 	poller   bool   // has called Sleep at least once
 	iterMark uint64 // steps made by OTHER threads when the current polling iteration began
@@ -388,6 +390,24 @@ func (s *Sched) point(kind string, loc uintptr, cond func() bool) {
 	t.kind = kind
 	t.loc = loc
 	t.cond = cond
+	pend := uint64(14695981039346656037)
+	for i := 0; i < len(kind); i++ {
+		pend = (pend ^ uint64(kind[i])) * 1099511628211
+	}
+	if loc == 0 {
+		pend ^= 0x5bd1e995
+	}
+	if cond == nil {
+		pend ^= 0x27d4eb2f
+	}
+	if t.nops != 0 || !t.lib {
+		pend = 0 // (only the first segment of a thread started by the code under test: see comp)
+	}
+	if pend != t.pend {
+		s.thrAcc -= t.comp()
+		t.pend = pend
+		s.thrAcc += t.comp()
+	}
 	s.schedule(t, false)
 	t.cond = nil
 	if t.sleeping {
@@ -455,6 +475,13 @@ func (t *Thread) comp() uint64 {
 	st := mix(uint64(t.ID)+0x7777, t.obs)
 	if t.done {
 		st = mix(st, 0xd09e)
+	}
+	// the first operation a new thread is parked before: in race-free code it follows from the spawn, but a
+	// goroutine started before its creator finished initialising what it reads may already have run its first
+	// segment and be parked before a different operation (or the same one on another object) than it would
+	// be had it started later. Kept for the first segment only: later on the observation history says it.
+	if t.pend != 0 {
+		st = mix(st, t.pend)
 	}
 	return st
 }
@@ -552,7 +579,12 @@ func Block(kind string, loc unsafe.Pointer, cond func() bool) bool {
 
 // Go starts fn as a new scheduler-owned thread.
 func Go(fn func()) {
-	GoNamed("", DaemonNext, fn)
+	if t := GoNamed("", DaemonNext, fn); t != nil && S != nil && !S.aborting {
+		t.lib = true
+		// a goroutine started by the code under test may run before its creator's next statement (a creator
+		// that still initialises what the new goroutine reads): a scheduling point right after the spawn
+		S.point("go.after", 0, nil)
+	}
 }
 
 // GoNamed starts a named thread; daemon threads may remain blocked at the end
